@@ -1,15 +1,249 @@
 import Uflow.Model.HalfConn
+import Uflow.Lemmas.PRecvOrdRun
 
-/-! # C01 (theorems are being added) -/
+/-!
+# C01 — per-channel delivery in order, at most once (receiver side, safety)
+
+Model: `Uflow.PRecv` (`src/half_connection/packet_receiver/mod.rs` and its assembly window). The
+receiver is driven by an arbitrary (hostile) list of `PRecv.Op` from `PRecv.init W b m`: datagrams
+with ANY field values in any order, `recv` = `receive`, `resync id` = `resynchronize` with any id.
+
+`receive` returns only the payloads, so the theorems are stated on an instrumented copy
+(`Uflow/Lemmas/PRecvOrdDefs.lean`):
+
+* `receiveT` = `receive`, reporting for every packet taken out of the window an `Ev`
+  (channel, sequence id, the two parent leads, payload; `data = none` for a packet that exceeded the
+  receive allocation limit — the code passes over it without calling the sink). `C01_receiveT_erase`:
+  forgetting the extra fields gives exactly `receive`.
+* `runT` = `run` on `G = (st, adv, log)`: `adv` is the ghost total distance the window base has moved
+  (sum of `pidSub newBase oldBase`), `log` the list of all delivery events, oldest first, each with
+  `uid = adv_at_that_receive + pidSub seq base_at_that_receive` (the unwrapped id: number of ids
+  between the initial base and the packet) and `wb = adv_at_that_receive` (unwrapped window base).
+  `C01_runT_erase`: the state component is `run`.
+
+Window size: the theorems need `W` to divide `2^20` and `2·W ≤ 2^20` (`PRecv.WOk`), stated here as
+`W = 2^k`, `k ≤ 19`. The library asserts `W` is a power of two `≤ 4096 = 2^12`. (For other `W` the
+masked window index `id % W` is not consecutive across the 20-bit wrap; nothing is claimed then.)
+-/
 
 namespace Uflow.Props.C01
 
-open Uflow
+open Uflow Uflow.PRecv
 
 /-- `pidSub` yields a 20-bit value. -/
 theorem C01_pidSub_lt (a b : Nat) : pidSub a b < 2^20 := by
   unfold pidSub
   simp only [Uflow.Gen.PACKET_ID_SPAN]
   omega
+
+/-! ## The instrumentation is faithful -/
+
+/-- `receiveT` is `receive` with more detailed output: same traps, same final state, and the payload
+list `receive` hands to the sink is the list of `data` fields of the events, in order. -/
+theorem C01_receiveT_erase (s : State) : (receiveT s).map eraseP = receive s := receiveT_erase s
+
+/-- The state component of the instrumented run is the plain hostile run `PRecv.run`. -/
+theorem C01_runT_erase (g : G) (ops : List Op) : (runT g ops).map G.st = run g.st ops := runT_erase ops g
+
+/-- The instrumented run never traps (as `run`, C03). -/
+theorem C01_runT_total (W b m : Nat) (hW : 0 < W) (hb : b < 2^20) (ops : List Op) :
+    ∃ g', runT (initG W b m) ops = .ok g' := runT_ok W b m hW hb ops
+
+/-- What a `recv` step appends to the log is what `receive` returned: the payloads handed to the
+sink by this call are the `data` fields of the new log entries, in order. -/
+theorem C01_log_is_receive_output (g g' : G) (h : stepT g .recv = .ok g') :
+    ∃ out, receive g.st = .ok (g'.st, out) ∧
+      out = (g'.log.drop g.log.length).filterMap LogE.data ∧ g.log = g'.log.take g.log.length := by
+  obtain ⟨s', evs, hr, hs, hl⟩ := stepT_recv_log g g' h
+  refine ⟨erase evs, ?_, ?_, ?_⟩
+  · rw [← receiveT_erase, hr, hs]; rfl
+  · rw [hl, List.drop_left, List.filterMap_map]
+    rfl
+  · rw [hl, List.take_left]
+
+/-- Every state of an instrumented hostile run satisfies the receiver invariant `Inv`, the ordering
+invariant `Ord` and the ghost invariant `GI` (`Uflow/Lemmas/PRecvOrdInv.lean`). -/
+theorem C01_reach (k : Nat) (hk : k ≤ 19) (b m : Nat) (hb : b < 2^20) (ops : List Op) (g' : G)
+    (h : runT (initG (2^k) b m) ops = .ok g') : GInv (2^k) (allocCeil m) b g' :=
+  runT_ginv (wOk_pow k hk) ops (ginv_init (2^k) b m (Nat.two_pow_pos k) hb) h
+
+/-- The ghost `adv` is the unwrapped window base: `base_id = (b + adv) mod 2^20`. -/
+theorem C01_base_tracks_adv (k : Nat) (hk : k ≤ 19) (b m : Nat) (hb : b < 2^20) (ops : List Op) (g' : G)
+    (h : runT (initG (2^k) b m) ops = .ok g') : g'.st.baseId = (b + g'.adv) % 2^20 :=
+  (C01_reach k hk b m hb ops g' h).gi.gbase
+
+/-! ## 1. Delivered packets are inside the window; data flags come from accepted datagrams -/
+
+/-- C01 (1a): every packet `receive` takes out of the window is on a real channel, its unwrapped id
+determines its sequence id (`seq = (b + uid) mod 2^20`), and at the time of that `receive` call it was
+inside the receive window: `wb ≤ uid < wb + W`, i.e. `pidSub seq base_id < W` for the `base_id` of
+that moment (`(b + wb) mod 2^20`). -/
+theorem C01_delivered_in_window (k : Nat) (hk : k ≤ 19) (b m : Nat) (hb : b < 2^20) (ops : List Op) (g' : G)
+    (h : runT (initG (2^k) b m) ops = .ok g') :
+    ∀ e ∈ g'.log, e.chan < 64 ∧ e.seq = (b + e.uid) % 2^20 ∧ e.wb ≤ e.uid ∧ e.uid < e.wb + 2^k ∧
+      e.wb ≤ g'.adv ∧ pidSub e.seq ((b + e.wb) % 2^20) = e.uid - e.wb ∧
+      pidSub e.seq ((b + e.wb) % 2^20) < 2^k := by
+  intro e he
+  have gi := (C01_reach k hk b m hb ops g' h).gi
+  obtain ⟨h1, h2, h3⟩ := gi.gwin e he
+  have hs := gi.gseq e he
+  have hW : 2^k ≤ 2^19 := Nat.pow_le_pow_right (by decide) hk
+  have hsub : pidSub e.seq ((b + e.wb) % 2^20) = e.uid - e.wb := by
+    rw [hs, pidSub_def]; omega
+  exact ⟨gi.gchan e he, hs, h1, h2, h3, hsub, by rw [hsub]; omega⟩
+
+/-- C01 (1b): the only operation that sets a slot's data flag (makes a packet deliverable) is
+`handle_datagram` on a datagram that passes `datagram_is_valid`, whose sequence id is inside the
+receive window (`pidSub seq base_id < W`) and not behind its channel's base id, and whose
+`AssemblyWindow::try_add` returned the completed packet (so all its fragments are in: `try_add`
+returns a packet only for a single-fragment datagram or when the fragment buffer's `remaining`
+reaches 0, see C04); the slot then carries that datagram's channel and parent leads and that
+packet's data. `receive` and `resynchronize` never set a data flag. Delivery (`receiveT`) only takes
+packets from flagged slots. -/
+theorem C01_data_flag_only_from_accepted_datagram (k : Nat) (hk : k ≤ 19) (b m : Nat) (hb : b < 2^20)
+    (ops : List Op) (g : G) (h : runT (initG (2^k) b m) ops = .ok g) (op : Op) (g' : G)
+    (hs : stepT g op = .ok g') (i : Nat) (h0 : (lget g.st.slots i).dataFlag = false)
+    (h1 : (lget g'.st.slots i).dataFlag = true) :
+    ∃ d, op = .dg d ∧ datagramIsValid d = true ∧ pidSub d.sequenceId g.st.baseId < 2^k ∧
+      pidSub ((cbase g.st d.channelId).getD g.st.baseId) g.st.baseId ≤ pidSub d.sequenceId g.st.baseId ∧
+      i = wi (2^k) d.sequenceId ∧
+      (lget g'.st.slots i).chan = d.channelId ∧ (lget g'.st.slots i).cpl = d.channelParentLead ∧
+      (lget g'.st.slots i).wpl = d.windowParentLead ∧
+      ∃ s1 p, tryAdd g.st i d = .ok (s1, some p) ∧ (lget g'.st.slots i).data = p.data := by
+  have hg := C01_reach k hk b m hb ops g h
+  have hW := wOk_pow k hk
+  cases op with
+  | dg d =>
+    rw [stepT_dg] at hs
+    cases hd : handleDatagram g.st d with
+    | error t => rw [hd] at hs; cases hs
+    | ok s' =>
+      rw [hd, bindR_ok] at hs
+      cases hs
+      exact ⟨d, rfl, handleDatagram_flag hg.inv d hd i h0 h1⟩
+  | recv =>
+    rw [stepT_recv] at hs
+    cases hr : receiveT g.st with
+    | error t => rw [hr] at hs; cases hs
+    | ok p =>
+      rw [hr, bindR_ok] at hs
+      cases hs
+      have := receiveT_flags hW hg.inv hg.ord hg.gi (show receiveT g.st = .ok (p.1, p.2) from hr) i h1
+      rw [h0] at this; cases this
+  | resync id =>
+    rw [stepT_resync] at hs
+    cases hr : resynchronize g.st id with
+    | error t => rw [hr] at hs; cases hs
+    | ok s' =>
+      rw [hr, bindR_ok] at hs
+      cases hs
+      have := resynchronize_flags hW hg.inv hg.ord id hr i h1
+      rw [h0] at this; cases this
+
+/-! ## 2. Per channel, unwrapped ids strictly increase -/
+
+/-- C01 (2): along any hostile run, the packets taken out of the window on one channel have strictly
+increasing unwrapped ids: for log entries `a` before `b` with the same channel, `a.uid < b.uid`.
+Since the sender assigns consecutive sequence ids in submission order, this is "in submission order,
+no duplicates". (The log also contains the packets passed over for exceeding the allocation limit;
+the delivered ones are a sublist, so the statement holds for them a fortiori.) -/
+theorem C01_channel_ids_increase (k : Nat) (hk : k ≤ 19) (b m : Nat) (hb : b < 2^20) (ops : List Op) (g' : G)
+    (h : runT (initG (2^k) b m) ops = .ok g') :
+    g'.log.Pairwise (fun a b => a.chan = b.chan → a.uid < b.uid) :=
+  (C01_reach k hk b m hb ops g' h).gi.gord
+
+/-- The same by positions in the log. -/
+theorem C01_channel_ids_increase_idx (k : Nat) (hk : k ≤ 19) (b m : Nat) (hb : b < 2^20) (ops : List Op)
+    (g' : G) (h : runT (initG (2^k) b m) ops = .ok g') (i j : Nat) (hij : i < j) (hj : j < g'.log.length)
+    (hc : (g'.log[i]'(by omega)).chan = (g'.log[j]).chan) : (g'.log[i]'(by omega)).uid < (g'.log[j]).uid :=
+  List.pairwise_iff_getElem.mp (C01_channel_ids_increase k hk b m hb ops g' h) i j (by omega) hj hij hc
+
+/-- The same for the packets actually handed to the sink (`data ≠ none`). -/
+theorem C01_channel_ids_increase_delivered (k : Nat) (hk : k ≤ 19) (b m : Nat) (hb : b < 2^20)
+    (ops : List Op) (g' : G) (h : runT (initG (2^k) b m) ops = .ok g') :
+    (g'.log.filter fun e => e.data.isSome).Pairwise (fun a b => a.chan = b.chan → a.uid < b.uid) :=
+  (C01_channel_ids_increase k hk b m hb ops g' h).filter _
+
+/-- Every delivery of a channel is behind the channel's current base id
+(`channel.base_id.unwrap_or(base_id)`), unwrapped — the invariant that makes (2) inductive: a later
+datagram of that channel is only accepted at or beyond the channel base. -/
+theorem C01_delivered_behind_channel_base (k : Nat) (hk : k ≤ 19) (b m : Nat) (hb : b < 2^20)
+    (ops : List Op) (g' : G) (h : runT (initG (2^k) b m) ops = .ok g') :
+    ∀ e ∈ g'.log, e.uid < g'.adv + pidSub ((cbase g'.st e.chan).getD g'.st.baseId) g'.st.baseId :=
+  (C01_reach k hk b m hb ops g' h).gi.glt
+
+/-! ## 3. At most once -/
+
+/-- C01 (3): no (channel, unwrapped id) is taken out of the window twice. With
+`C01_delivered_in_window` (`seq = (b + uid) mod 2^20`): the same 20-bit sequence id can reappear on a
+channel only after the window has moved a full `2^20` ids further. -/
+theorem C01_at_most_once (k : Nat) (hk : k ≤ 19) (b m : Nat) (hb : b < 2^20) (ops : List Op) (g' : G)
+    (h : runT (initG (2^k) b m) ops = .ok g') :
+    g'.log.Pairwise (fun a b => ¬ (a.chan = b.chan ∧ a.uid = b.uid)) :=
+  (C01_channel_ids_increase k hk b m hb ops g' h).imp (fun hab hc => by
+    have := hab hc.1
+    omega)
+
+/-- The same by positions: two different log positions never carry the same (channel, unwrapped id). -/
+theorem C01_at_most_once_idx (k : Nat) (hk : k ≤ 19) (b m : Nat) (hb : b < 2^20) (ops : List Op) (g' : G)
+    (h : runT (initG (2^k) b m) ops = .ok g') (i j : Nat) (hi : i < g'.log.length) (hj : j < g'.log.length)
+    (hc : (g'.log[i]).chan = (g'.log[j]).chan) (hu : (g'.log[i]).uid = (g'.log[j]).uid) : i = j := by
+  rcases Nat.lt_trichotomy i j with hlt | heq | hgt
+  · have := C01_channel_ids_increase_idx k hk b m hb ops g' h i j hlt hj hc
+    omega
+  · exact heq
+  · have := C01_channel_ids_increase_idx k hk b m hb ops g' h j i hgt hi hc.symm
+    omega
+
+/-! ## Non-vacuity -/
+
+def mk (seq chan wpl cpl : Nat) (data : List Nat) : Op :=
+  .dg { sequenceId := seq, channelId := chan, windowParentLead := wpl, channelParentLead := cpl,
+        fragmentId := 0, fragmentIdLast := 0, data := data }
+
+/-- The window starts two ids before the 20-bit wrap-around. -/
+def exBase : Nat := 2^20 - 2
+
+/-- Two channels; the packet of channel 1 arrives before the earlier packet of channel 0 and is
+duplicated; after the first `recv` the window has wrapped to id 0 and a stale duplicate arrives;
+then packet 1 of channel 0 (whose channel parent is packet 0) arrives before packet 0. -/
+def exScript : List Op :=
+  [ mk (2^20-1) 1 0 0 [11], mk (2^20-2) 0 0 0 [10], mk (2^20-1) 1 0 0 [11], .recv,
+    mk (2^20-1) 1 0 0 [11], mk 1 0 1 1 [21], .recv, mk 0 0 0 0 [20], .recv ]
+
+/-- The script runs to the expected log: (channel, sequence id, unwrapped id, unwrapped window base,
+payload); the duplicates are delivered once, channel 0 gets 10, 20, 21 in order across the wrap. -/
+example : (match runT (initG 8 exBase 6000) exScript with
+    | .ok g => decide ((g.log.map fun e => (e.chan, e.seq, e.uid, e.wb, e.data)) =
+        [(0, 2^20-2, 0, 0, some [10]), (1, 2^20-1, 1, 0, some [11]), (0, 0, 2, 2, some [20]),
+         (0, 1, 3, 2, some [21])] ∧ g.adv = 4 ∧ g.st.baseId = 2)
+    | .error _ => false) = true := by decide +kernel
+
+/-- The plain `run` hands the sink the same payloads (second `recv` returns nothing, the third
+`[20], [21]`). -/
+example : (match run (init 8 exBase 6000) (exScript.take 8) with
+    | .ok s => (match receive s with
+      | .ok (_, out) => decide (out = [[20], [21]])
+      | .error _ => false)
+    | .error _ => false) = true := by decide +kernel
+
+/-- The hypotheses of the theorems are satisfiable: `8 = 2^3`, `exBase < 2^20`, the run exists. -/
+example : ∃ g', runT (initG (2^3) exBase 6000) exScript = .ok g' ∧ (3 : Nat) ≤ 19 ∧ exBase < 2^20 := by
+  obtain ⟨g', h⟩ := C01_runT_total (2^3) exBase 6000 (by decide) (by decide) exScript
+  exact ⟨g', h, by decide, by decide⟩
+
+/-- A `recv` step from a reachable state (hypothesis of `C01_log_is_receive_output`): it appends the two
+deliveries of the first `recv` of the script. -/
+example : (match runT (initG 8 exBase 6000) (exScript.take 3) with
+    | .ok g => (match stepT g .recv with
+      | .ok g' => decide (g.log.length = 0 ∧ g'.log.length = 2)
+      | .error _ => false)
+    | .error _ => false) = true := by decide +kernel
+
+/-- A data flag is indeed set by an accepted datagram in the script (hypotheses of (1b)). -/
+example : (match runT (initG 8 exBase 6000) (exScript.take 1) with
+    | .ok g => decide ((lget (initG 8 exBase 6000).st.slots 7).dataFlag = false ∧
+        (lget g.st.slots 7).dataFlag = true)
+    | .error _ => false) = true := by decide +kernel
 
 end Uflow.Props.C01
